@@ -233,6 +233,27 @@ MUTANTS += [
         "veccat!(vec![pointer], argument_pointers, local_pointers)", "veccat!(argument_pointers, vec![pointer], local_pointers)")]),
 ]
 
+MUTANTS += [
+    dict(id="M08", props=["C04"], what="u16 big-endian on both sides", edits=[
+        (S, "pub fn write_u16<W: Write>(writer: &mut W, value: u16) -> Result<()> {\n    let buf = value.to_le_bytes();", "pub fn write_u16<W: Write>(writer: &mut W, value: u16) -> Result<()> {\n    let buf = value.to_be_bytes();"),
+        (S, "    reader.read_exact(&mut buf).expect(\"Problem reading u16 from data stream\");\n    u16::from_le_bytes(buf)", "    reader.read_exact(&mut buf).expect(\"Problem reading u16 from data stream\");\n    u16::from_be_bytes(buf)")]),
+    dict(id="M34", props=["C04"], what="Method writes/reads locals before parameters (both sides)", edits=[
+        (P, "                parameters.serialize(sink)?;\n                locals.serialize(sink)?;", "                locals.serialize(sink)?;\n                parameters.serialize(sink)?;"),
+        (P, "                parameters: Arity::from_bytes(input),\n                locals: Size::from_bytes(input),", "                locals: Size::from_bytes(input),\n                parameters: Arity::from_bytes(input),")]),
+    dict(id="M3a", props=["C03", "C04"], what="reader decodes Slot name as big-endian (writer unchanged)", edits=[
+        (P, "            0x04 => ProgramObject::Slot { name: ConstantPoolIndex::from_bytes(input) },", "            0x04 => ProgramObject::Slot { name: ConstantPoolIndex::new(serializable::read_u16(input).swap_bytes()) },")]),
+    dict(id="M3b", props=["C03", "C04"], what="reader swaps the tags of Jump and Branch", edits=[
+        (B, "            0x0D => Branch       { label:     ConstantPoolIndex::from_bytes(input)  },\n            0x0E => Jump         { label:     ConstantPoolIndex::from_bytes(input)  },",
+            "            0x0E => Branch       { label:     ConstantPoolIndex::from_bytes(input)  },\n            0x0D => Jump         { label:     ConstantPoolIndex::from_bytes(input)  },")]),
+    dict(id="M3c", props=["C03", "C04"], what="writer emits method code reversed", edits=[
+        (P, "        Ok((start..end).map(|index| &self.0[index]).collect())", "        Ok((start..end).rev().map(|index| &self.0[index]).collect())")]),
+    dict(id="M3d", props=["C03"], what="range assertion of write_usize_as_u16 removed", edits=[
+        (S, "    assert!(value <= 65_535usize); // Max u16 value.\n", "")]),
+    dict(id="M3e", props=["C03", "C04"], what="CallFunction writes arity before name (writer only)", edits=[
+        (B, "            CallFunction { name: function, arguments } => {\n                function.serialize(sink)?;\n                arguments.serialize(sink)\n            },",
+            "            CallFunction { name: function, arguments } => {\n                arguments.serialize(sink)?;\n                function.serialize(sink)\n            },")]),
+]
+
 MUTANTS = [m for m in MUTANTS if m["edits"]]
 
 BENIGN = [
